@@ -65,6 +65,9 @@ NATIVE_UNITS = {
     "apply_tail_known": {"file": "src/interpreter/interpreter.rs", "source": "tail_space.rs",
                          "modpath": "interpreter::interpreter", "test": "verif_native_apply_tail_known", "role": "known",
                          "finding": "apply-not-a-tail-call"},
+    "template_location_known": {"file": "src/interpreter/interpreter.rs", "source": "eval_location.rs",
+                                "modpath": "interpreter::interpreter", "test": "verif_native_template_location_known", "role": "known",
+                                "finding": "template-location"},
     "tail_arity_panic": {"file": "src/interpreter/interpreter.rs", "source": "tail_arity.rs",
                          "modpath": "interpreter::interpreter", "test": "verif_native_tail_arity_panic",
                          "role": "witness", "for_fns": ["apply_procedure"]},
@@ -189,7 +192,7 @@ PROPS = {
         "assumptions": [],
     },
     "C15": {
-        "verus": ["lexer_pos", "interp_loc", "interp_eval"], "kani": [], "native": ["lexer_position_witness", "eval_location_witness"],
+        "verus": ["lexer_pos", "interp_loc", "interp_eval"], "kani": [], "native": ["lexer_position_witness", "eval_location_witness", "template_location_known"],
         "level": "proof",
         "explanation": "Two of the stages through which locations are threaded are proved for all inputs: Lexer::advance maintains the exact "
                        "1-based line and the column recurrence over the consumed prefix (so a token's position is never on an earlier line "
@@ -197,9 +200,7 @@ PROPS = {
                        "from_char_stream starts at (1,1); Interpreter::eval_ast keeps an inner error location and fills a missing one with "
                        "the statement's own location.",
         "unverified": ["data and expressions inheriting token locations in parser.rs (transform_to_statement, current_datum ...)",
-                       "template-built data take the TEMPLATE's location (macros.rs substitude): an error inside a top-level `let` is "
-                       "reported at a line of the bundled grammar.sld -- known to be wrong today, outside any obligation stated here, so "
-                       "neither an alarm nor a KNOWN-FINDING line",
+                       "template-built data take the TEMPLATE's location (macros.rs substitude): known finding template-location, demonstrated on every run",
                        "errors raised inside builtins and library procedures carry no location of their own: eval_ast's fall-back gives "
                        "them the statement's location (proved); tail calls of a non-procedure likewise"],
         "assumptions": ["fewer than 2^32 lines and columns (u32 counters)", "std::iter::Peekable::next yields and drops the head of the remaining input"],
